@@ -13,6 +13,14 @@ import (
 )
 
 func TestMain(m *testing.M) {
+	// child go commands (go vet, go list, go/packages) must be the default
+	// toolchain's: a parent `go test` of a switched toolchain prepends its own
+	// bin directory to PATH and exports its GOROOT
+	if g := os.Getenv("VERIF_GO"); g != "" {
+		os.Setenv("PATH", filepath.Dir(g)+string(os.PathListSeparator)+os.Getenv("PATH"))
+		os.Unsetenv("GOROOT")
+		os.Unsetenv("GOTOOLDIR")
+	}
 	code := m.Run()
 	ev.Flush()
 	os.Exit(code)
